@@ -339,23 +339,100 @@ package channel
 //@   ensures indexMap != nil ==> result.IndexMap == indexMap
 //@   ensures indexMap == nil ==> len(result.IndexMap) == 0 && fresh(arr(result.IndexMap))
 
+// allocCloned(c, a): c is a deep copy of allocation a: equal view, and every slice
+// backing array and big integer reachable from c is fresh. Asset values are shared (documented).
+//@ pred allocCloned(c Allocation, a Allocation) =
+//@   (a.Backends == nil) == (c.Backends == nil) && len(c.Backends) == len(a.Backends) && (a.Backends != nil ==> fresh(arr(c.Backends))) &&
+//@   (forall i int :: 0 <= i && i < len(a.Backends) ==> c.Backends[i] == old(a.Backends[i])) &&
+//@   (a.Assets == nil) == (c.Assets == nil) && len(c.Assets) == len(a.Assets) && (a.Assets != nil ==> fresh(arr(c.Assets))) &&
+//@   (forall i int :: 0 <= i && i < len(a.Assets) ==> c.Assets[i] == old(a.Assets[i])) &&
+//@   (a.Balances == nil) == (c.Balances == nil) && len(c.Balances) == len(a.Balances) && (a.Balances != nil ==> fresh(arr(c.Balances))) &&
+//@   (forall i int :: 0 <= i && i < len(a.Balances) ==> balsCloned(c.Balances[i], a.Balances[i])) &&
+//@   (a.Locked == nil) == (c.Locked == nil) && len(c.Locked) == len(a.Locked) && (a.Locked != nil ==> fresh(arr(c.Locked))) &&
+//@   (forall i int :: 0 <= i && i < len(a.Locked) ==> c.Locked[i].ID == a.Locked[i].ID) &&
+//@   (forall i int :: 0 <= i && i < len(a.Locked) ==> balsCloned(c.Locked[i].Bals, a.Locked[i].Bals)) &&
+//@   (forall i int :: 0 <= i && i < len(a.Locked) ==> idxMapCloned(c.Locked[i].IndexMap, a.Locked[i].IndexMap))
+
 //@ func (Allocation).Clone
 //@   requires nonNilBalances(a.Balances) && nonNilLocked(a.Locked)
-//@   ensures (a.Backends == nil) == (clone.Backends == nil) && len(clone.Backends) == len(a.Backends) && (a.Backends != nil ==> fresh(arr(clone.Backends)))
-//@   ensures forall i int :: 0 <= i && i < len(a.Backends) ==> clone.Backends[i] == old(a.Backends[i])
-//@   ensures (a.Assets == nil) == (clone.Assets == nil) && len(clone.Assets) == len(a.Assets) && (a.Assets != nil ==> fresh(arr(clone.Assets)))
-//@   ensures forall i int :: 0 <= i && i < len(a.Assets) ==> clone.Assets[i] == old(a.Assets[i])
-//@   ensures (a.Balances == nil) == (clone.Balances == nil) && len(clone.Balances) == len(a.Balances) && (a.Balances != nil ==> fresh(arr(clone.Balances)))
-//@   ensures forall i int :: 0 <= i && i < len(a.Balances) ==> balsCloned(clone.Balances[i], a.Balances[i])
-//@   ensures (a.Locked == nil) == (clone.Locked == nil) && len(clone.Locked) == len(a.Locked) && (a.Locked != nil ==> fresh(arr(clone.Locked)))
-//@   ensures forall i int :: 0 <= i && i < len(a.Locked) ==> clone.Locked[i].ID == a.Locked[i].ID
-//@   ensures forall i int :: 0 <= i && i < len(a.Locked) ==> balsCloned(clone.Locked[i].Bals, a.Locked[i].Bals)
-//@   ensures forall i int :: 0 <= i && i < len(a.Locked) ==> idxMapCloned(clone.Locked[i].IndexMap, a.Locked[i].IndexMap)
+//@   ensures allocCloned(clone, a)
 //@   loop 1
 //@     modifies clone.Locked[*]
 //@     invariant len(clone.Locked) == len(a.Locked) && fresh(arr(clone.Locked)) && off(clone.Locked) == 0
 //@     invariant forall k int :: 0 <= k && k < $i ==> clone.Locked[k].ID == a.Locked[k].ID
 //@     invariant forall k int :: 0 <= k && k < $i ==> balsCloned(clone.Locked[k].Bals, a.Locked[k].Bals)
-//@     invariant forall k int :: 0 <= k && k < $i ==> len(clone.Locked[k].IndexMap) == len(a.Locked[k].IndexMap)
-//@     invariant forall k int :: 0 <= k && k < $i ==> fresh(arr(clone.Locked[k].IndexMap))
-//@     invariant forall k int :: 0 <= k && k < $i ==> forall j int :: 0 <= j && j < len(a.Locked[k].IndexMap) ==> clone.Locked[k].IndexMap[j] == old(a.Locked[k].IndexMap[j])
+//@     invariant forall k int :: 0 <= k && k < $i ==> idxMapCloned(clone.Locked[k].IndexMap, a.Locked[k].IndexMap)
+
+// Data (interface contract, assumed for third-party implementations): Clone returns a
+// fresh value with the same encoding.
+//@ ghost func dataEq(a Data, b Data) bool
+//@ interface Data
+//@   method Clone
+//@     requires recv != nil
+//@     ensures result != nil && fresh(payload(result)) && dataEq(result, recv)
+//@ end
+
+//@ func (*State).Clone
+//@   requires s != nil ==> s.Data != nil && nonNilBalances(s.Balances) && nonNilLocked(s.Locked)
+//@   ensures (s == nil) == (result == nil)
+//@   ensures s != nil ==> fresh(result) && result.ID == s.ID && result.Version == s.Version && result.IsFinal == s.IsFinal && result.App == s.App
+//@   ensures s != nil ==> fresh(payload(result.Data)) && dataEq(result.Data, s.Data)
+//@   ensures s != nil ==> allocCloned(result.Allocation, s.Allocation)
+
+// txCloned(c, t): c is a deep copy of transaction t.
+//@ pred txCloneable(t Transaction) = t.State != nil ==> t.State.Data != nil && nonNilBalances(t.State.Balances) && nonNilLocked(t.State.Locked)
+//@ pred txCloned(c Transaction, t Transaction) =
+//@   (t.State == nil) == (c.State == nil) &&
+//@   (t.State != nil ==> fresh(c.State) && c.State.ID == t.State.ID && c.State.Version == t.State.Version && c.State.IsFinal == t.State.IsFinal && c.State.App == t.State.App) &&
+//@   (t.State != nil ==> fresh(payload(c.State.Data)) && dataEq(c.State.Data, t.State.Data)) &&
+//@   (t.State != nil ==> allocCloned(c.State.Allocation, t.State.Allocation)) &&
+//@   (t.Sigs == nil) == (c.Sigs == nil) && len(c.Sigs) == len(t.Sigs) && (t.Sigs != nil ==> fresh(arr(c.Sigs))) &&
+//@   (forall i int :: 0 <= i && i < len(t.Sigs) ==> (t.Sigs[i] == nil) == (c.Sigs[i] == nil) && (t.Sigs[i] != nil ==> fresh(arr(c.Sigs[i]))) && sigBytesEq(c.Sigs[i], t.Sigs[i]))
+
+//@ func (Transaction).Clone
+//@   requires txCloneable(t)
+//@   ensures txCloned(result, t)
+
+//@ pred partsNonNil(p []map[wallet.BackendID]wallet.Address) = forall i int :: 0 <= i && i < len(p) ==> addrMapNonNil(p[i])
+//@ pred partsCloned(c []map[wallet.BackendID]wallet.Address, o []map[wallet.BackendID]wallet.Address) =
+//@   c != nil && fresh(arr(c)) && len(c) == len(o) && forall i int :: 0 <= i && i < len(o) ==> addrMapCloned(c[i], o[i])
+
+//@ func CloneAddresses
+//@   requires partsNonNil(as)
+//@   ensures partsCloned(result, as)
+//@   loop 1
+//@     modifies cloneMap[*]
+//@     invariant len(cloneMap) == len(as) && fresh(arr(cloneMap)) && off(cloneMap) == 0
+//@     invariant forall k int :: 0 <= k && k < $i ==> addrMapCloned(cloneMap[k], as[k])
+
+//@ func (*Params).Clone
+//@   requires p.Nonce != nil && partsNonNil(p.Parts)
+//@   ensures result != nil && fresh(result) && result.id == p.id && result.ChallengeDuration == p.ChallengeDuration && result.App == p.App
+//@   ensures result.LedgerChannel == p.LedgerChannel && result.VirtualChannel == p.VirtualChannel && result.Aux == p.Aux
+//@   ensures fresh(result.Nonce) && val(result.Nonce) == old(val(p.Nonce))
+//@   ensures partsCloned(result.Parts, p.Parts)
+
+//@ pred paramsCloned(c Params, p Params) =
+//@   c.id == p.id && c.ChallengeDuration == p.ChallengeDuration && c.App == p.App && c.LedgerChannel == p.LedgerChannel &&
+//@   c.VirtualChannel == p.VirtualChannel && c.Aux == p.Aux && fresh(c.Nonce) && val(c.Nonce) == old(val(p.Nonce)) && partsCloned(c.Parts, p.Parts)
+
+//@ func (*machine).Clone
+//@   requires m.params.Nonce != nil && partsNonNil(m.params.Parts) && txCloneable(m.stagingTX) && txCloneable(m.currentTX)
+//@   requires forall i int :: 0 <= i && i < len(m.prevTXs) ==> txCloneable(m.prevTXs[i])
+//@   ensures result != nil && fresh(result) && result.phase == m.phase && result.idx == m.idx && result.acc == m.acc
+//@   ensures paramsCloned(result.params, m.params)
+//@   ensures txCloned(result.stagingTX, m.stagingTX)
+//@   ensures txCloned(result.currentTX, m.currentTX)
+//@   ensures (m.prevTXs == nil) == (result.prevTXs == nil) && len(result.prevTXs) == len(m.prevTXs) && (m.prevTXs != nil ==> fresh(arr(result.prevTXs)))
+//@   loop 1
+//@     modifies prevTXs[*]
+//@     invariant len(prevTXs) == len(m.prevTXs) && fresh(arr(prevTXs)) && off(prevTXs) == 0
+
+//@ func (*StateMachine).Clone
+//@   requires m.machine != nil && m.params.Nonce != nil && partsNonNil(m.params.Parts) && txCloneable(m.stagingTX) && txCloneable(m.currentTX)
+//@   requires forall i int :: 0 <= i && i < len(m.prevTXs) ==> txCloneable(m.prevTXs[i])
+//@   ensures result != nil && fresh(result) && result.app == m.app && result.machine != nil && fresh(result.machine)
+//@   ensures result.phase == m.phase && result.idx == m.idx && result.acc == m.acc
+//@   ensures paramsCloned(result.params, m.params)
+//@   ensures txCloned(result.stagingTX, m.stagingTX)
+//@   ensures txCloned(result.currentTX, m.currentTX)
